@@ -123,58 +123,65 @@ Definition vsn_bad (v : list N) : bool :=
 
 Definition Nlist_eqb := list_eqb N.eqb.
 
+(* first half of aliveNode: find the record the claim is about (inserting a fresh
+   Dead@0 record for an unknown, allowed member), or stop *)
+Inductive alive_found :=
+| AFIgnore
+| AFConflict (r : rec)
+| AFProceed (s1 : nstate) (r : rec) (updates : bool).
+
+Definition new_rec (addr meta : N) (vsn : list N) : rec :=
+  mkRec 0 Dead addr meta (if (5 <? length vsn)%nat then firstn 6 vsn else vsn0) zero_time.
+
+Definition can_replace (c : cfg) (s : nstate) (r : rec) : bool :=
+  st_eqb (rst r) Left || (st_eqb (rst r) Dead && ((0 <? reclaim c) && (reclaim c <? now s - rsince r))).
+
+Definition alive_find (c : cfg) (s : nstate) (name addr meta : N) (vsn : list N) : alive_found :=
+  match alookup name (recs s) with
+  | None =>
+      if is_allowed c addr
+      then AFProceed (mkS (recs s ++ [(name, new_rec addr meta vsn)]) (nnodes s + 1) (timers s) (linc s)
+                          (leaving s) (score s) (bq s) (now s))
+                     (new_rec addr meta vsn) false
+      else AFIgnore
+  | Some r =>
+      if N.eqb (raddr r) addr then AFProceed s r false
+      else if is_allowed c addr
+           then if can_replace c s r then AFProceed s r true else AFConflict r
+           else AFIgnore
+  end.
+
+(* second half: the incarnation gates and the update itself *)
+Definition alive_apply (c : cfg) (s1 : nstate) (r : rec) (updates : bool)
+           (inc name addr meta : N) (vsn : list N) (bootstrap : bool) : nstate * list event :=
+  let is_self := N.eqb name (self c) in
+  if (inc <=? rinc r)%N && negb is_self && negb updates then (s1, [])
+  else if (inc <? rinc r)%N && is_self then (s1, [])
+  else
+    let s2 := set_timers s1 (orphan name (timers s1)) in
+    if negb bootstrap && is_self then
+      if N.eqb inc (rinc r) && N.eqb meta (rmeta r) && Nlist_eqb vsn (rvsn r)
+      then (s2, [])
+      else (refute c s2 r inc,
+            if dead_or_left (rst r) then [EvJoin name (raddr r) (rmeta r)] else [])
+    else
+      let r' := mkRec inc Alive addr meta
+                      (if (6 <=? length vsn)%nat then firstn 6 vsn else rvsn r)
+                      (if st_eqb (rst r) Alive then rsince r else now s2) in
+      (set_rec (set_bq s2 (kname name) (BAlive inc name addr meta vsn)) name r',
+       if dead_or_left (rst r) then [EvJoin name addr meta]
+       else if negb (N.eqb (rmeta r) meta) then [EvUpdate name addr meta]
+       else []).
+
 Definition do_alive (c : cfg) (s : nstate) (inc name addr meta : N) (vsn : list N) (bootstrap : bool)
   : nstate * list event :=
   if leaving s && N.eqb name (self c) then (s, [])
   else if vsn_bad vsn then (s, [])
-  else
-    (* look up / insert *)
-    let found := alookup name (recs s) in
-    let pre : option (nstate * rec * bool) + list event :=
-      match found with
-      | None =>
-          if negb (is_allowed c addr) then inr []
-          else
-            let r := mkRec 0 Dead addr meta (if (5 <? length vsn)%nat then firstn 6 vsn else vsn0) zero_time in
-            inl (Some (mkS (recs s ++ [(name, r)]) (nnodes s + 1) (timers s) (linc s) (leaving s) (score s) (bq s) (now s), r, false))
-      | Some r =>
-          if negb (N.eqb (raddr r) addr) then
-            if negb (is_allowed c addr) then inr []
-            else
-              let can_reclaim := (0 <? reclaim c) && (reclaim c <? now s - rsince r) in
-              if st_eqb (rst r) Left || (st_eqb (rst r) Dead && can_reclaim)
-              then inl (Some (s, r, true))
-              else inr (if has_conflict c then [EvConflict name (raddr r) addr] else [])
-          else inl (Some (s, r, false))
-      end in
-    match pre with
-    | inr evs => (s, evs)
-    | inl None => (s, [])
-    | inl (Some (s1, r, updates)) =>
-        let is_self := N.eqb name (self c) in
-        if (inc <=? rinc r)%N && negb is_self && negb updates then (s1, [])
-        else if (inc <? rinc r)%N && is_self then (s1, [])
-        else
-          let s2 := set_timers s1 (orphan name (timers s1)) in
-          let old_st := rst r in
-          let old_meta := rmeta r in
-          let '(s3, r3, stop) :=
-            if negb bootstrap && is_self then
-              if N.eqb inc (rinc r) && N.eqb meta (rmeta r) && Nlist_eqb vsn (rvsn r)
-              then (s2, r, true)
-              else let s' := refute c s2 r inc in
-                   (s', match alookup name (recs s') with Some r' => r' | None => r end, false)
-            else
-              let r' := mkRec inc Alive addr meta
-                              (if (6 <=? length vsn)%nat then firstn 6 vsn else rvsn r)
-                              (if st_eqb (rst r) Alive then rsince r else now s2) in
-              (set_rec (set_bq s2 (kname name) (BAlive inc name addr meta vsn)) name r', r', false) in
-          if stop then (s3, [])
-          else
-            (s3, if dead_or_left old_st then [EvJoin name (raddr r3) (rmeta r3)]
-                 else if negb (N.eqb old_meta (rmeta r3)) then [EvUpdate name (raddr r3) (rmeta r3)]
-                 else [])
-    end.
+  else match alive_find c s name addr meta vsn with
+       | AFIgnore => (s, [])
+       | AFConflict r => (s, if has_conflict c then [EvConflict name (raddr r) addr] else [])
+       | AFProceed s1 r updates => alive_apply c s1 r updates inc name addr meta vsn bootstrap
+       end.
 
 (* deadNode *)
 Definition do_dead (c : cfg) (s : nstate) (inc name from : N) : nstate * list event :=
